@@ -73,6 +73,15 @@ def argMinMaxCol (maxMode : Bool) (n : Nat) (fill : Int) (es : Row) : Nat :=
   else
     gapSearch (-1) 0 ((es.map (·.1)).mergeSort fun a b => decide (a ≤ b))
 
+/-- Region of finding F-stored-fill for one column of argmax/argmin: the fill value is the extremum,
+the column is not full, and an explicitly stored element equal to the fill value lies before the
+first unstored position (the kernel then answers the first unstored position). -/
+def ExcludedArgStoredFill (maxMode : Bool) (n : Nat) (fill : Int) (es : Row) : Bool :=
+  let compared := (es.map (·.2)).any fun v => if maxMode then decide (v > fill) else decide (v < fill)
+  !(compared || es.length == n) &&
+    es.any fun e => e.2 == fill &&
+      decide (e.1 < gapSearch (-1) 0 ((es.map (·.1)).mergeSort fun a b => decide (a ≤ b)))
+
 /-- the kernel: `result_indices = np.unique(index_coords)`, one `argMinMaxCol` per such index -/
 def computeMinmaxArgs (maxMode : Bool) (n : Nat) (fill : Int) (es : List (Nat × Nat × Int)) : List (Nat × Nat) :=
   let cols := dedupAdj ((es.map (·.2.1)).mergeSort fun a b => decide (a ≤ b))
